@@ -227,20 +227,16 @@ func capturedString(L *LState, m *pm.MatchData, str string, idx int) string {
 }
 
 func strGsubDoReplace(str string, info []replaceInfo) string {
-	offset := 0
-	buf := []byte(str)
+	// the matches are in ascending order and do not overlap: copy the text between them and the
+	// replacements into one buffer instead of rebuilding the whole string for every match
+	pos := 0
+	buf := make([]byte, 0, len(str))
 	for _, replace := range info {
-		oldlen := len(buf)
-		b1 := append([]byte(""), buf[0:offset+replace.Indicies[0]]...)
-		b2 := []byte("")
-		index2 := offset + replace.Indicies[1]
-		if index2 <= len(buf) {
-			b2 = append(b2, buf[index2:len(buf)]...)
-		}
-		buf = append(b1, replace.String...)
-		buf = append(buf, b2...)
-		offset += len(buf) - oldlen
+		buf = append(buf, str[pos:replace.Indicies[0]]...)
+		buf = append(buf, replace.String...)
+		pos = replace.Indicies[1]
 	}
+	buf = append(buf, str[pos:]...)
 	return string(buf)
 }
 
